@@ -78,12 +78,38 @@ func (m *Model) Fingerprint(fn *ssa.Function) string {
 	return fmt.Sprintf("%x", sha1.Sum([]byte(sb.String())))[:16]
 }
 
+// Fingerprint2 refines Fingerprint by the names of the in-package functions called: it tells
+// twins apart that differ only in which kernel they call (decKaratsubaAdd / decKaratsubaSub).
+func (m *Model) Fingerprint2(fn *ssa.Function) string {
+	var names []string
+	for _, b := range fn.Blocks {
+		for _, in := range b.Instrs {
+			if ci, ok := in.(ssa.CallInstruction); ok {
+				if cal := ci.Common().StaticCallee(); cal != nil && (cal.Pkg == m.SDec || cal.Pkg == m.SCtx) {
+					names = append(names, m.rawName(cal))
+				}
+			}
+		}
+	}
+	sort.Strings(names)
+	return fmt.Sprintf("%x", sha1.Sum([]byte(m.Fingerprint(fn)+strings.Join(names, ","))))[:16]
+}
+
 // rawName: the construct name before aliasing.
 func (m *Model) rawName(fn *ssa.Function) string { return m.funcName(fn, false) }
 
 // computeAliases fills m.alias from the pinned fingerprints.
 func (m *Model) computeAliases() {
 	m.alias = map[*ssa.Function]string{}
+	if m.Cfg.aliasNames != nil {
+		// a later load of a normalisation sequence: the renames were settled on the first one
+		for _, fn := range m.Funcs {
+			if a, ok := m.Cfg.aliasNames[m.rawName(fn)]; ok && fn.Parent() == nil {
+				m.alias[fn] = a
+			}
+		}
+		return
+	}
 	pinned := pinnedFP[m.Cfg.Name]
 	if len(pinned) == 0 {
 		return
@@ -115,11 +141,31 @@ func (m *Model) computeAliases() {
 	}
 	var notes []string
 	for fp, names := range goneByFP {
-		if len(names) != 1 || len(newByFP[fp]) != 1 {
+		if len(names) == 1 && len(newByFP[fp]) == 1 {
+			m.alias[newByFP[fp][0]] = names[0]
+			notes = append(notes, m.rawName(newByFP[fp][0])+" is "+names[0]+" under a new name (same body)")
 			continue
 		}
-		m.alias[newByFP[fp][0]] = names[0]
-		notes = append(notes, m.rawName(newByFP[fp][0])+" is "+names[0]+" under a new name (same body)")
+		// twins: same body up to the kernels they call — match on the refined fingerprint
+		for _, fn := range newByFP[fp] {
+			fp2 := m.Fingerprint2(fn)
+			var match []string
+			for _, n := range names {
+				if pinnedFP2[m.Cfg.Name][n] == fp2 {
+					match = append(match, n)
+				}
+			}
+			others := 0
+			for _, g := range newByFP[fp] {
+				if m.Fingerprint2(g) == fp2 {
+					others++
+				}
+			}
+			if len(match) == 1 && others == 1 {
+				m.alias[fn] = match[0]
+				notes = append(notes, m.rawName(fn)+" is "+match[0]+" under a new name (same body, same callees)")
+			}
+		}
 	}
 	sort.Strings(notes)
 	m.AliasNotes = notes
